@@ -164,10 +164,25 @@ def check_reset_discipline(ctx, facts, cfg, R_drop, R_recv, R_full):
         ws = write_sites(facts, full_fn.path)
         fb = full_fn.body
         pnames = full_fn.param_names()
+        # the explicit reset may be written as two calls, `work.configure(..); work.reset_received();`: the per-round fields the
+        # first leaves alone are then the business of the implicit reset, which has to run next to it at every call site
+        unwritten = [fld for fld in fields if not covered(fb, ws, fld, lambda w: True, RL.store_adt if ftypes[fld] == RL.store_adt else None)]
+        companion = {}
+        if unwritten and all(fld in pr and fld not in store for fld in unwritten):
+            companion = companion_sites(facts, full, recv_fn)
         for fld in fields:
             ty = ftypes[fld]
             verdict = None
             any_w = covered(fb, ws, fld, lambda w: True, RL.store_adt if ty == RL.store_adt else None)
+            if not any_w and fld in unwritten and companion:
+                bad = sorted(q for q, okc in companion.items() if not okc)
+                for q in bad:
+                    ctx.violation(R_full, 'field-not-reset:%s' % rname(fld),
+                                  'field %s.%s is left alone by %s and %s does not run %s on the same object next to it: this explicit reset (or handover to a new codec) keeps per-round state of the previous round'
+                                  % (core.short(work_adt), fld, core.short(full), q, core.short(recv_fn)), site=facts.fns[q].span, fn=q, cfg=cfg)
+                if not bad:
+                    ctx.ok(R_full, '%s:%s@%s' % (core.short(full), fld, cfg), {'cleared_by': '%s, called next to %s at all %d call sites' % (core.short(recv_fn), core.short(full), len(companion))})
+                continue
             if not any_w:
                 verdict = 'is not rewritten on every path'
             elif fld in pr and fld not in store:
@@ -192,6 +207,26 @@ def check_reset_discipline(ctx, facts, cfg, R_drop, R_recv, R_full):
             else:
                 ctx.ok(R_full, '%s:%s@%s' % (core.short(full), fld, cfg), {'at': any_w[0][5]})
         ctx.floor(R_full, 5, len(fields), 'fields of %s' % work_adt, cfg=cfg)
+
+
+def companion_sites(facts, full, recv_fn):
+    """{caller: bool}: at every call of `full` (the configuring half of a split explicit reset) in the crate, is `recv_fn` (the
+    implicit reset) called on the same object, either before it on every path or after it on every path to a successful exit?"""
+    out = {}
+    for q, g in facts.fns.items():
+        gb = g.body
+        for b, t in gb.calls():
+            if t['callee'].get('path') != full or gb.blocks[b]['cleanup']:
+                continue
+            obj = core.strip_var_ids(gb.canon_op(t['args'][0])) if t['args'] else None
+            mates = [b2 for b2, t2 in gb.calls() if t2['callee'].get('path') == recv_fn and t2['args']
+                     and core.strip_var_ids(gb.canon_op(t2['args'][0])) == obj]
+            okc = any(b2 != b and gb.dominates(b2, b) for b2 in mates)
+            if not okc and mates:
+                reach = gb.reachable_from(b, stop=frozenset(mates))
+                okc = not [x for x in success_exits(gb) if x in reach and x not in mates]
+            out[q] = out.get(q, True) and okc
+    return out
 
 
 def success_exits(body):
